@@ -4,7 +4,9 @@
 #include <cerrno>
 #include <cstdarg>
 #include <cstdio>
+#include <algorithm>
 #include <cstring>
+#include <dirent.h>
 #include <dlfcn.h>
 #include <fcntl.h>
 #include <map>
@@ -131,6 +133,98 @@ void Arm(const std::string& root)
     g_fault_fired = false;
     g_armed = true;
 }
+SavedLog TakeLog()
+{
+    Guard g;
+    SavedLog s;
+    s.root = g_root;
+    s.log.swap(g_log);
+    s.names.assign(g_names.begin(), g_names.end());
+    s.next_ino = g_next_ino;
+    s.other_thread_ops = g_other_thread_ops;
+    g_names.clear();
+    return s;
+}
+void RestoreLog(SavedLog&& s)
+{
+    Guard g;
+    g_root = s.root;
+    g_log.swap(s.log);
+    g_names.clear();
+    g_names.insert(s.names.begin(), s.names.end());
+    g_next_ino = s.next_ino;
+    g_other_thread_ops = s.other_thread_ops;
+    for (auto& f : g_fds) f = FdInfo{};
+}
+
+static void AdoptDir(const std::string& abs, const std::string& rel)
+{
+    std::vector<std::string> entries;
+    if (DIR* d = opendir(abs.c_str())) {
+        while (struct dirent* e = readdir(d)) {
+            std::string n = e->d_name;
+            if (n != "." && n != "..") entries.push_back(n);
+        }
+        closedir(d);
+    }
+    std::sort(entries.begin(), entries.end());
+    for (const std::string& n : entries) {
+        const std::string a = abs + "/" + n, r = rel.empty() ? n : rel + "/" + n;
+        struct stat st;
+        if (lstat(a.c_str(), &st) != 0) continue;
+        if (S_ISDIR(st.st_mode)) {
+            LogOp op;
+            op.kind = OpKind::MKDIR;
+            op.path = r;
+            g_log.push_back(std::move(op));
+            AdoptDir(a, r);
+        } else if (S_ISREG(st.st_mode)) {
+            uint32_t ino = g_next_ino++;
+            g_names[r] = ino;
+            LogOp c;
+            c.kind = OpKind::CREATE;
+            c.ino = ino;
+            c.path = r;
+            g_log.push_back(std::move(c));
+            LogOp w;
+            w.kind = OpKind::WRITE;
+            w.ino = ino;
+            w.off = 0;
+            w.data.resize((size_t)st.st_size);
+            int fd = ::open(a.c_str(), O_RDONLY);
+            size_t got = 0;
+            while (fd >= 0 && got < w.data.size()) {
+                ssize_t n2 = ::read(fd, w.data.data() + got, w.data.size() - got);
+                if (n2 <= 0) break;
+                got += (size_t)n2;
+            }
+            if (fd >= 0) ::close(fd);
+            w.len = w.data.size();
+            if (w.len) g_log.push_back(std::move(w));
+            LogOp sy;
+            sy.kind = OpKind::SYNC;
+            sy.ino = ino;
+            g_log.push_back(std::move(sy));
+        }
+    }
+}
+
+size_t ArmAdopt(const std::string& root)
+{
+    Arm(root);
+    g_armed = false;
+    ++t_bypass;
+    {
+        Guard g;
+        std::string abs = g_root;
+        abs.pop_back();
+        AdoptDir(abs, "");
+    }
+    --t_bypass;
+    g_armed = true;
+    return g_log.size();
+}
+
 void Disarm() { g_armed = false; }
 bool Armed() { return g_armed; }
 size_t LogSize() { Guard g; return g_log.size(); }
